@@ -102,16 +102,17 @@ def make_potable_variants(rng, m):
     Adds m['embed_order'] (species with an [EAM-Embed] entry, file order), m['dens_decl'] (density entries in file order)."""
     els = list(m["els"])
     embed_order = list(els)
-    # at most one species loses its embedding entry (it is then zero-filled and listed last: deterministic)
-    if len(els) >= 2 and rng.random() < 0.25:
-        victim = rng.choice(els)
-        embed_order.remove(victim)
-        m["embed"][victim] = None
-        if m["fs"]:
-            # the victim must still be mentioned by some density entry, else it is not a species of the model at all
-            if all(m["dens"][a].get(victim) is None for a in els) and all(v is None for v in m["dens"][victim].values()):
-                m["dens"][victim][victim] = 9000 + len(els)
-        m["els"] = embed_order + [victim]
+    # some species lose their embedding entry: they are zero-filled and listed after the others, in sorted order
+    if len(els) >= 2 and rng.random() < 0.3:
+        victims = rng.sample(els, rng.randint(1, len(els) - 1))
+        for victim in victims:
+            embed_order.remove(victim)
+            m["embed"][victim] = None
+            if m["fs"]:
+                # the victim must still be mentioned by some density entry, else it is not a species of the model at all
+                if all(m["dens"][a].get(victim) is None for a in els) and all(v is None for v in m["dens"][victim].values()):
+                    m["dens"][victim][victim] = 9000 + els.index(victim)
+        m["els"] = embed_order + sorted(victims)
     if not m["fs"]:
         # some species may lack a density entry (zero-filled density)
         for e in els:
@@ -197,7 +198,6 @@ def request(m, op, potable, extra_order=None, **kw):
     if potable:
         species = set(m["els"]) | {a for a, b, f in m["pairs"]} | {b for a, b, f in m["pairs"]}
         cfg = dict(fs=m["fs"], embed=[[e, m["embed"][e]] for e in m["embed_order"]],
-                   extraOrder=extra_order if extra_order is not None else [e for e in m["els"] if e not in m["embed_order"]],
                    speciesExtra=[[e, meta_json(ex)] for e, ex in m["species_extra"].items()],
                    speciesBuiltin=[[e, meta_json(BUILTIN[e]._asdict())] for e in sorted(species) if e in BUILTIN])
         if m["fs"]:
@@ -205,6 +205,8 @@ def request(m, op, potable, extra_order=None, **kw):
         else:
             cfg["dens"] = [[e, f] for (e, f) in m["dens_decl"]]
         r["cfg"] = cfg
+        if extra_order is not None:
+            cfg["extraOrder"] = extra_order
     else:
         els = []
         for e in m["els"]:
